@@ -187,6 +187,8 @@ def evaluate(ctx, cases):
         def check(pred):
             if err: return 'raised ' + err
             if len(res) != n0 or any(len(r) != n1 for r in res): return 'result is not an %d x %d nested list' % (n0, n1)
+            if not isinstance(pred, list) or len(pred) != n0 or any(not isinstance(r, list) or len(r) != n1 for r in pred):
+                return 'the prediction is not an %d x %d nested list: %r' % (n0, n1, pred if not isinstance(pred, list) else [len(r) if isinstance(r, list) else r for r in pred])
             for i in range(n0):
                 for j in range(n1):
                     if not res[i][j].equals(expected(pred[i][j])):
